@@ -424,10 +424,12 @@ def gen_recursive(r, depth=None):
     names = ['A', 'B', 'Cc', 'Dd'][:k]
     kr = r.choice(['bag', 'bag', 'bag', 'distinct'])
     preds.append({'name': 'E', 'arity': 2, 'kind': 'edb', 'rows': chain(r, around + 2), 'rules': []})
-    base = r.randrange(k)
+    # the base fact sits in one member, in all of them, or in some
+    how = r.choice(['one', 'one', 'all', 'some'])
+    bases = {r.randrange(k)} if how == 'one' else set(range(k)) if how == 'all' else set(r.sample(range(k), r.randint(1, k)))
     for i, n in enumerate(names):
       rules_ = []
-      if i == base:
+      if i in bases:
         rules_.append(rule([C(0)]))
       rules_.append(rule([V('y')], [[names[(i - 1) % k], [V('x')], None], ['E', [V('x'), V('y')], None]]))
       preds.append({'name': n, 'arity': 1, 'kind': kr, 'rules': rules_})
